@@ -56,23 +56,60 @@ K("vd.order_fits_varblock", ["C01", "C02", "C17"], "jxl-vardct", VHP, VHPM, "ord
   "swapped when need_transpose(), is the varblock's coefficient area, and every entry (swapped likewise) lies inside 8*w8 x 8*h8")
 
 # ---- dequant.rs ---------------------------------------------------------------------------------
-K("vd.into_matrix_hornuss", ["C01", "C17", "C02"], "jxl-vardct", VDQ, VDQM, "into_matrix_hornuss",
-  "complete", ["DequantMatrixParams::into_matrix"],
-  "requires the 9 parameters in the finite binary16 range (what read_f16_as_f32 yields); ensures Ok iff every parameter > 0 "
-  "(non-positive weights are rejected with a validation error); Ok => 3 x 64 multipliers, each == 1 / weight of the Hornuss layout, in (0, 1e8)")
-K("vd.into_matrix_dct2", ["C01", "C17", "C02"], "jxl-vardct", VDQ, VDQM, "into_matrix_dct2",
-  "complete", ["DequantMatrixParams::into_matrix"],
-  "same for the DCT2 mode (18 parameters): cell (x, y), m = max, s = floor(log2 m): weight p[2s+1] if min >= 2^s else p[2s]; DC slot 1")
+# (dequant.rs harnesses into_matrix_hornuss / into_matrix_dct2 / parse_mode_guard are kept in the module but NOT registered:
+#  they do not close under CBMC -- see the comments there; DequantMatrixParams::into_matrix and ::parse stay unverified)
 K("vd.set_get", ["C01", "C17"], "jxl-vardct", VDQ, VDQM, "set_get_contract", "complete",
   ["DequantMatrixSet::get", "DequantMatrixSet::get_transposed", "DequantMatrixSet::jpeg_quant_values"],
   "on a set of 17 x 3 matrices (what parse builds): get / get_transposed(channel, t) return matrix kQuantTable[t] of that channel for every "
   "transform and channel, never panic, and agree with dequant_matrix_param_index")
-K("vd.parse_mode_guard", ["C01", "C17"], "jxl-vardct", VDQ, VDQM, "parse_mode_guard",
-  "bounded:encoding modes 1..=5 on every non-8x8 parameter set, mode 1 on every 8x8 set; 20 symbolic input bytes",
-  ["DequantMatrixParams::parse"],
-  "the 8x8-only encodings (Hornuss, DCT2, DCT4, DCT4x8, AFV) are rejected with a validation error for every transform larger than 8x8; "
-  "mode 1 on an 8x8 set: Ok iff the nine F16 fields are finite, parameters in channel-major field order, 147 bits consumed", timeout=600)
 
 # ---- hf_metadata.rs -----------------------------------------------------------------------------
 K("vd.block_info_occupied", ["C01", "C17"], "jxl-vardct", VHM, VHMM, "block_info_occupied_contract", "complete",
   ["BlockInfo::is_occupied"], "a cell is free iff it is Uninit (Data / Occupied block a new varblock); BlockInfo::default() is free")
+
+# ------------------------------------------------------------------------------------------------
+# jxl-jbr, part 2 (extends the modules of 60_jbr.py; same crate_attrs / canary)
+# ------------------------------------------------------------------------------------------------
+# ---- lib.rs -------------------------------------------------------------------------------------
+_J("jb2.scan_info_parse", ["C17", "C01"], JLB, JLBM, "scan_info_parse_contract", "complete",
+   ["ScanInfo::parse", "ScanComponentInfo::parse", "ScanInfo::num_comps"],
+   "for every input of 0..=7 bytes: Ok iff the bundle is complete; num_comps = u(2) + 1 entries, Ss = u(6), Se = u(6), Al = u(4), Ah = u(4), "
+   "per component comp_idx / ac_tbl_idx / dc_tbl_idx = u(2) each (table selectors <= 3), last_needed_pass = U32(0, 1, 2, 3 + u(3)); exactly "
+   "those bits consumed; Err is unexpected-eof")
+_J("jb2.scan_info_spectral_range", ["C01", "C17"], JLB, JLBM, "scan_info_spectral_range_pre", "complete", ["ScanInfo::parse"],
+   "consumer precondition: process_scan (scan.rs:400-401, 479-480) computes Vec::with_capacity(Se + 1 - Ss.max(1)) and slices "
+   "DCT8_NATURAL_ORDER[Ss.max(1) .. Se + 1]; the parser must therefore never return Ss > Se + 1 (T.81 B.2.3: Ss <= Se), for every 7-byte input")
+_J("jb2.scan_info_comp_idx", ["C01", "C17"], JLB, JLBM, "scan_info_comp_idx_pre", "complete", ["ScanInfo::parse", "ScanComponentInfo::parse"],
+   "consumer precondition: the SOS writer indexes header.components and a [u32; 3] sampling table (reconstruct.rs:537, 556, 560) and "
+   "process_scan a 3-entry permutation (scan.rs:443) with comp_idx; the parser must therefore never return comp_idx 3, for every 7-byte input")
+_SMI_STUBS = (" [RandomState::new replaced by fixed keys and DefaultHasher::write / finish by a constant hash (the observable set / map does not "
+              "depend on hash values); the real hashbrown table runs]")
+for _rp, _ez in ((2, 1), (1, 2)):
+    _J("jb2.scan_more_info_rp%d_ez%d" % (_rp, _ez), ["C17", "C01"], JLB, JLBM, "scan_more_info_parse_rp%d_ez%d" % (_rp, _ez),
+       "bounded:<= %d reset points and <= %d extra-zero-run entries (complete over their values; the bundle fits in 16 bytes)" % (_rp, _ez),
+       ["ScanMoreInfo::parse", "ExtraZeroRun::parse"],
+       "both lists are delta coded: index_0 = delta_0, index_k = index_(k-1) + delta_k + 1 with delta = U32(0, 1 + u(3), 9 + u(5), 41 + u(28)); "
+       "reset_points == the set of indices; extra_zero_runs == the map index_k -> num_runs_k = U32(1, 2 + u(2), 5 + u(4), 20 + u(8)); an index "
+       "above 3 * 2^26 is a validation error; exactly the bundle's bits are consumed" + _SMI_STUBS, tier="thorough", timeout=1200)
+
+# ---- reconstruct/scan.rs ------------------------------------------------------------------------
+_J("jb2.first_pass_eobrun", ["C17", "C01"], JSC, JSCM, "progressive_first_eobrun_contract",
+   "bounded:bands [] and [0, 0, 0]; one 5-bit code table built by the real build(); every EOBRUN 0..=32766 on entry",
+   ["process_progressive_first", "ScanState::emit_eobrun", "ScanState::update_ac_table"],
+   "T.81 Figure G.3: an all-zero band adds 1 to EOBRUN and writes nothing; when the run reaches 32767 it is coded at once (EOB14 + 14 one-bits) "
+   "and reset, so 0 <= EOBRUN <= 32766 between blocks; an empty band (DC scan) leaves the run alone" + _SC_STUBS + _HF_STUBS,
+   tier="thorough", timeout=1200)
+_J("jb2.refinement_eob", ["C17", "C01"], JSC, JSCM, "progressive_refinement_eob_contract",
+   "bounded:bands [], [0], [2], [3, 0], [0, -3], [2, 3] (no newly-nonzero coefficient); every EOBRUN 0..=32766 and <= 1 earlier buffered "
+   "correction-bit entry of <= 10 bits on entry",
+   ["process_progressive_refinement", "ScanState::emit_eobrun", "ScanState::buffer_refinement_bits"],
+   "T.81 Figure G.7 (executable transcription): the block joins the run iff a zero run OR correction bits are pending at the end of the band "
+   "(bands [2], [2, 3] have no zero); its correction bits (bit 0 of every already-nonzero coefficient, band order) are appended to the buffer; "
+   "at 32767: EOB14 + 14 one-bits + all buffered bits, run and buffer reset; otherwise nothing is written" + _SC_STUBS + _HF_STUBS,
+   tier="thorough", timeout=1200)
+_J("jb2.refinement_newly_nonzero", ["C17", "C01"], JSC, JSCM, "progressive_refinement_newly_nonzero_contract",
+   "bounded:bands [1], [0, -1], [-2, 1], [1, 0], [-1, 2], [0, 0, 1]; every EOBRUN 0..=32766 and <= 1 earlier buffered entry on entry",
+   ["process_progressive_refinement", "ScanState::emit_eobrun", "ScanState::buffer_refinement_bits"],
+   "T.81 Figure G.7: the pending run (with its buffered bits) is coded BEFORE the newly-nonzero coefficient, then code(run << 4 | 1), sign bit "
+   "(1 = positive), the correction bits skipped over; a band ending in the coded coefficient starts no run, a tail after it does"
+   + _SC_STUBS + _HF_STUBS, tier="thorough", timeout=1200)
